@@ -289,6 +289,7 @@ type Sub struct {
 	UnsubRet  int64
 	Subscribed bool
 	paused    bool
+	Leftover  []int // still in the subscription channel's buffer after everything stopped
 }
 
 func (s *Sub) run(startPaused bool) {
@@ -722,8 +723,23 @@ func (r *Runner) Finish(checkLeak bool) {
 		r.cancel() // not part of the scenario: only tidying up
 	}
 	r.cancel()
+	left := WaitNoLibGoroutines()
+	for _, s := range r.Subs {
+		if s.ch == nil {
+			continue
+		}
+	drain:
+		for {
+			select {
+			case v := <-s.ch:
+				s.Leftover = append(s.Leftover, v)
+			default:
+				break drain
+			}
+		}
+	}
 	if checkLeak {
-		if l := WaitNoLibGoroutines(); len(l) > 0 {
+		if l := left; len(l) > 0 {
 			r.fail("C09:broker:goroutine-leak", "%d goroutine(s) still inside %s %v after shutdown; first:\n%s", len(l), libPrefix, Bound, trim(l[0], 1200))
 		}
 	}
@@ -740,12 +756,16 @@ func trim(s string, n int) string {
 
 type Obs struct {
 	Logs map[int][]int `json:"logs"`
+	Left map[int][]int `json:"left,omitempty"` // sent into a subscription channel's buffer, never received
 }
 
 func (r *Runner) Observations() Obs {
-	o := Obs{Logs: map[int][]int{}}
+	o := Obs{Logs: map[int][]int{}, Left: map[int][]int{}}
 	for _, s := range r.Subs {
 		o.Logs[s.Idx] = s.Log()
+		if len(s.Leftover) > 0 {
+			o.Left[s.Idx] = s.Leftover
+		}
 	}
 	return o
 }
